@@ -57,5 +57,6 @@ NoDupKeys(j) == CASE j.t = "obj" -> /\ Cardinality({kv[1] : kv \in j.m}) = Cardi
                   [] OTHER -> TRUE
 EncTotal == LET s == Build(fv) IN NoDupKeys(Enc(s, SymMsg(s, TopMsg(s), 3)))
 \* the round-trip projection of an encoded value is the value itself where nothing lossy is annotated
-NormIdempotent == LET s == Build(fv) x == SymMsg(s, TopMsg(s), 3) IN NormMsg(s, x) = NormMsg(s, x)
+\* with no annotation honoured anywhere the mapping is plain proto3 JSON, which never unwraps or flattens
+PlainTotal == LET s == Build(fv) IN NoDupKeys(EncMsgVal(s, SymMsg(s, TopMsg(s), 3), FALSE, FALSE))
 =============================================================================
